@@ -145,7 +145,7 @@ def boundary(rng, case, idx):
     from pv.handlers import request_quantum
 
     def resolvable(base_, m_):
-        """requests are honoured to a quantum (1e-10 g for masses ...): a source holding less than 1e4 quanta is below
+        """requests are honoured to a quantum (1e-10 storage units): a source holding less than 1e4 quanta is below
         the resolution at which a relative distance of 3e-6 .. 1e-3 from the boundary means anything"""
         quantum = request_quantum(base_, s.contents)
         if base_ == 'U':
